@@ -81,6 +81,31 @@ fn generate_engine(run_seed: u64) -> Scenario {
         inputs.insert(at, EngineInput::BlockArtifacts);
         inputs.push(EngineInput::ThreadPost(Content::Prompt("a question asked after the artifact store was lost".into())));
     }
+    // own sub-stream: 1 in 4 background tasks leave a descendant behind that keeps the pipes open
+    // and writes 450-700 ms after the shell has exited (frames that arrive late must still be in the
+    // snapshot); 1 in 30 engine scenarios are one very long run — 35 000-36 500 text deltas, two
+    // frames each, more than any bounded in-memory history would keep
+    let mut l = Rng::derive(run_seed, "c03-engine:late-and-long");
+    for i in inputs.iter_mut() {
+        if let EngineInput::Task(cmd) = i {
+            if l.chance(1, 4) {
+                let ms = l.range(450, 700);
+                *cmd = cmd.replacen("; exit", &format!("; (sleep 0.{ms:03}; echo late) & exit"), 1);
+            }
+        }
+    }
+    if l.chance(1, 30) {
+        use crate::esim::{Chunking, DoneMode, Resp, SseEv};
+        let n = l.range(35_000, 36_500);
+        let mut events = vec![SseEv::Created { id: "resp_long".into() }];
+        for i in 0..n {
+            events.push(SseEv::TextDelta { text: format!("w{i} ") });
+        }
+        events.push(SseEv::Completed { id: "resp_long".into() });
+        let script = vec![Resp::Sse { events, interleave: false, done: DoneMode::Present, chunking: Chunking::Whole, drop_after: None, crlf: false }];
+        let inputs = vec![if l.chance(1, 2) { EngineInput::Session(Content::Prompt("say a very great deal".into())) } else { EngineInput::ThreadPost(Content::Prompt("say a very great deal".into())) }];
+        return Scenario::Engine { cfg: crate::esim::ProviderCfg::default(), script, inputs };
+    }
     Scenario::Engine { cfg, script, inputs }
 }
 
@@ -143,6 +168,22 @@ fn engine_run(cfg: &crate::esim::ProviderCfg, script: &[crate::esim::Resp], inpu
             }
         }
         let ids: Vec<(String, &'static str)> = streams.iter().map(|s| (s.0.clone(), s.1)).collect();
+        if script.iter().any(|r| matches!(r, crate::esim::Resp::Sse { events, .. } if events.len() > 10_000)) {
+            // a very long run: wait for the log to stop growing before parsing it at every tick
+            let log_file = engine.data.join("events.jsonl");
+            let mut last = (0u64, std::time::Instant::now());
+            let t0 = std::time::Instant::now();
+            while t0.elapsed() < std::time::Duration::from_secs(150) {
+                let n = std::fs::metadata(&log_file).map(|m| m.len()).unwrap_or(0);
+                if n != last.0 {
+                    last = (n, std::time::Instant::now());
+                }
+                if n > 1_000_000 && last.1.elapsed() > std::time::Duration::from_millis(800) {
+                    break;
+                }
+                engine.settle(25);
+            }
+        }
         engine.wait_until(std::time::Duration::from_secs(60), |t| {
             ids.iter().all(|(id, kind)| match *kind {
                 "session" => t.frames.iter().any(|f| f.stream_id == *id && f.ty == "session_ended"),
@@ -158,6 +199,22 @@ fn engine_run(cfg: &crate::esim::ProviderCfg, script: &[crate::esim::Resp], inpu
         engine.settle(20);
         let truth = model::parse_truth_file(&data.join("events.jsonl")).map_err(|e| format!("truth: {}", e.reason))?;
         let canon_list = |v: &[Value]| -> Vec<String> { v.iter().map(model::canon).collect() };
+        if truth.frames.len() > 5_000 {
+            // a very long stream: its subscriber is still being served; wait until the bytes settle
+            let mut last = (0usize, std::time::Instant::now());
+            let t0 = std::time::Instant::now();
+            while t0.elapsed() < std::time::Duration::from_secs(40) {
+                let n: usize = streams.iter().map(|s| s.3.buf.lock().unwrap().len()).sum();
+                if n != last.0 {
+                    last = (n, std::time::Instant::now());
+                }
+                if last.1.elapsed() > std::time::Duration::from_millis(500) {
+                    break;
+                }
+                engine.settle(20);
+            }
+            stats.bump("very_long_runs", 1);
+        }
         for (id, kind, snap, sub) in &streams {
             let log: Vec<Value> = truth.stream(kind, id).iter().map(|f| f.v.clone()).collect();
             stats.bump("engine_streams_compared", 1);
